@@ -454,6 +454,25 @@ for step in job["steps"]:
             cur = get_fcp(os.path.join(root, "main.fcp"), Logger({})).unwrap()
         finally:
             shutil.rmtree(root, ignore_errors=True)
+    elif step["op"] == "gen_disk":
+        # the generation command itself, into one directory that stays for the whole process (what was generated there before
+        # is still on disk); recorded: the directory's contents afterwards
+        from fcp.codegen import GeneratorManager
+        from fcp.verifier import make_general_verifier
+        if "_disk" not in globals():
+            _disk = tempfile.mkdtemp(prefix="fcpdetd_")
+            import atexit
+            atexit.register(shutil.rmtree, _disk, True)
+        dd = os.path.join(_disk, step["generator"])
+        with contextlib.redirect_stdout(io.StringIO()):
+            rr = GeneratorManager(make_general_verifier()).generate(step["generator"], None, None, cur, dd)
+        if step.get("record"):
+            snap = []
+            for dp, dn, fn in os.walk(dd):
+                for f in fn:
+                    pth = os.path.join(dp, f)
+                    snap.append([os.path.relpath(pth, dd), open(pth, encoding="utf-8", errors="replace", newline="").read()])
+            out.append({"generator": step["generator"], "files": sorted(snap), "order": [], "disk": True, "ok": bool(rr.is_ok())})
     elif step["op"] == "gen":
         r = gen(cur, step["generator"])
         if step.get("record"):
@@ -627,6 +646,13 @@ def run_c17(prop, tier):
             fh += [{"op": "parse_files", "files": as_files(text)}] + [{"op": "gen", "generator": g, "record": True} for g in gens]
             jobs.append(({"steps": fh, "reuse_generators": True}, seeds[0]))
             meta.append((si, "history-files", seeds[0]))
+        if si % 2 == 0:
+            # (d) the generation command writing into a directory that already holds the output of another, larger-or-smaller
+            # schema of the same family: every file of a fresh generation must be on disk with the same contents
+            dh = [{"op": "parse", "text": other}] + [{"op": "gen_disk", "generator": g} for g in gens]
+            dh += [{"op": "parse", "text": text}] + [{"op": "gen_disk", "generator": g, "record": True} for g in gens]
+            jobs.append(({"steps": dh}, seeds[0]))
+            meta.append((si, "history-disk", seeds[0]))
     with ThreadPoolExecutor(16) as ex:
         res = list(ex.map(lambda j: run_script(*j), jobs))
     ref = {}
@@ -641,6 +667,20 @@ def run_c17(prop, tier):
         for j, o in enumerate(r["out"]):
             g = o["generator"]
             cf = canon(o["files"])
+            if o.get("disk"):
+                # only the files a fresh generation returns are compared (older files of other schemas may stay around)
+                want = ref.get((si, g))
+                if want is None or any(p.startswith("<") for p, _ in want[0]):
+                    continue
+                on_disk = dict(map(tuple, cf))
+                bad = [p for p, c in want[0] if on_disk.get(p) != c]
+                rep.hist("disk_history", "same" if not bad else "differs")
+                if bad:
+                    rep.cov["disagreements_checked"] += 1
+                    rep.violation(dict(base, kind2="nondeterminism-on-disk", generator=g, differs_in=bad[:5], reference_run=want[1:],
+                                       what="files written into a directory that already held another generation differ from "
+                                            "the files of a fresh generation of the same schema"))
+                continue
             paths = [p for p, _ in cf]
             if len(dict(cf)) != len(set(map(tuple, cf))):
                 rep.violation(dict(base, kind2="dup-paths", generator=g,
